@@ -14,8 +14,6 @@ The compilation strategy is hence as follows:
 
 import logging
 from collections import defaultdict
-from functools import reduce
-import operator
 from .. import ir
 from ..graph import relooper
 from . import components
@@ -133,13 +131,10 @@ class IrToWasmCompiler:
             else:
                 raise NotImplementedError(str(ir_external))
 
-        # Global variables:
+        # Global variables, assign an address to each of them:
         for ir_variable in ir_module.variables:
             addr = self.global_memory
             self.global_labels[ir_variable.name] = addr
-            if ir_variable.value:
-                data = reduce(operator.add, ir_variable.value)
-                self.initial_memory.append((0, addr, data))
             self.global_memory += ir_variable.amount
 
         functions_to_do = []
@@ -178,9 +173,47 @@ class IrToWasmCompiler:
                     components.Export(ir_function.name, "func", func_ref)
                 )
 
+        # Initial values of global variables. These can contain addresses
+        # of other variables and of functions, so all must be known by now.
+        for ir_variable in ir_module.variables:
+            if ir_variable.value:
+                addr = self.global_labels[ir_variable.name]
+                data = self.get_initial_data(ir_variable.value)
+                self.initial_memory.append((0, addr, data))
+
         # Functions:
         for ir_function, wasm_func in functions_to_do:
             self.do_function(ir_function, wasm_func)
+
+    def get_initial_data(self, value) -> bytes:
+        """Create the initial bytes of a global variable."""
+        data = bytearray()
+        for part in value:
+            if isinstance(part, bytes):
+                data.extend(part)
+            elif isinstance(part, tuple) and part[0] is ir.ptr:
+                # Address of a label, (ptr, name)
+                addr = self.get_label_address(part[1])
+                data.extend(addr.to_bytes(4, "little"))
+            else:  # pragma: no cover
+                raise NotImplementedError(str(part))
+        return bytes(data)
+
+    def get_label_address(self, name: str) -> int:
+        """Get the address of a global variable, or the table index of a
+        function.
+        """
+        if name in self.global_labels:
+            addr = self.global_labels[name]
+        elif self.has_function(name):
+            # Taking pointer of function
+            func_ref = self.function_refs[name]
+            addr = len(self.pointed_functions)
+            self.global_labels[name] = addr
+            self.pointed_functions.append(func_ref)
+        else:  # pragma: no cover
+            raise NotImplementedError(name)
+        return addr
 
     def create_wasm_module(self):
         """Finalize the wasm module and return it"""
@@ -682,16 +715,7 @@ class IrToWasmCompiler:
             self.emit(opcode, value)
             self.stack += 1
         elif tree.name == "LABEL":  # isinstance(tree, ir.LiteralData):
-            if tree.value in self.global_labels:
-                addr = self.global_labels[tree.value]
-            elif self.has_function(tree.value):
-                # Taking pointer of function
-                func_ref = self.function_refs[tree.value]
-                addr = len(self.pointed_functions)
-                self.global_labels[tree.value] = addr
-                self.pointed_functions.append(func_ref)
-            else:  # pragma: no cover
-                raise NotImplementedError()
+            addr = self.get_label_address(tree.value)
             self.emit("i32.const", addr)
             self.stack += 1
         elif tree.name in self.cast_operators:
